@@ -466,3 +466,17 @@ func TestD25_PerKeyOrder(t *testing.T) {
 		t.Fatalf("order of the issues under key x depends on the visit order: %v", seen)
 	}
 }
+
+// D26: a missing list parameter (key ending in []) is presented as a present, empty list
+func TestD26_MissingListParam(t *testing.T) {
+	type D struct {
+		Tags []string `query:"tags[]"`
+	}
+	s := z.Struct(z.Schema{"tags": z.Slice(z.String()).Required()})
+	req := httptest.NewRequest("GET", "/?x=1", nil)
+	var d D
+	errs := s.Parse(zhttp.Request(req), &d)
+	if len(errs["tags[]"]) != 1 || d.Tags != nil {
+		t.Fatalf("missing tags[] treated as present: errs=%v d=%#v", errs, d)
+	}
+}
